@@ -160,7 +160,9 @@ def run(pid, tier, ev=None, vd=None, finish=True, want_label=None):
         lt = os.path.join(work, "hclink")
         open(lt, "wb").write(link_target.encode())
         hexes[vlib.run_cmd([bins["vh_lib"], "b3", lt]).stdout.decode().strip()] = bh.LINK
-        hrecs = bh.run_all(copia, os.path.join(work, "h"), [(vlib.seed() * 10007 + i, 24, hexes) for i in range(nh)], pairs=True, link_target=link_target)
+        hjobs = [(vlib.seed() * 10007 + i, 24, hexes) for i in range(nh)]
+        hjobs += [(900_000 + k, len(sc), hexes, sc) for k, sc in enumerate(bh.SCRIPTS)]             # scripted histories
+        hrecs = bh.run_all(copia, os.path.join(work, "h"), hjobs, pairs=True, link_target=link_target)
         hpath = os.path.join(work, "hist.ndjson")
         hfiles = []
         for k in range(0, len(hrecs), 3000):
